@@ -83,6 +83,11 @@ type enc struct {
 	inlineBusy  map[*ssa.Function]bool
 	rootFC      *FuncContract
 	safetyProps []string
+	entryState  *State
+	closed      map[string]bool
+	defText     map[string]string
+	ghostEntry  map[string]Term
+	ghostTy     map[string]types.Type
 }
 
 func (e *enc) fresh(prefix string) string {
@@ -187,6 +192,7 @@ type State struct {
 	fam   map[string]Term
 	alloc Term
 	ghost map[string]Term
+	snaps map[string]*State // heap snapshots taken right after the first logged call of a contract
 }
 
 func (s *State) clone() *State {
@@ -196,6 +202,12 @@ func (s *State) clone() *State {
 	}
 	for k, v := range s.ghost {
 		n.ghost[k] = v
+	}
+	if len(s.snaps) > 0 {
+		n.snaps = make(map[string]*State, len(s.snaps))
+		for k, v := range s.snaps {
+			n.snaps[k] = v
+		}
 	}
 	return n
 }
@@ -342,7 +354,7 @@ func (e *enc) merge(conds []Term, states []*State) *State {
 	} else {
 		n.alloc = e.define("alloc", "Int", iteChain(conds, as))
 	}
-	// ghosts: merge those present in all states
+	// ghosts: a state that lacks a ghost variable holds its (unknown) entry value
 	keys := map[string]int{}
 	for _, s := range states {
 		for k := range s.ghost {
@@ -350,26 +362,60 @@ func (e *enc) merge(conds []Term, states []*State) *State {
 		}
 	}
 	var gk []string
-	for k, c := range keys {
-		if c == len(states) {
-			gk = append(gk, k)
-		}
+	for k := range keys {
+		gk = append(gk, k)
 	}
 	sort.Strings(gk)
 	for _, k := range gk {
 		ts := make([]Term, len(states))
 		same := true
 		for i, s := range states {
-			ts[i] = s.ghost[k]
+			t, ok := s.ghost[k]
+			if !ok {
+				if strings.HasPrefix(k, "seen:") {
+					ts = nil
+					break
+				}
+				t, ok = e.ghostEntry[k]
+				if !ok {
+					t = e.declare("ghost:"+k, e.ghostSort(k))
+					e.ghostEntry[k] = t
+				}
+			}
+			ts[i] = t
 			if ts[i] != ts[0] {
 				same = false
 			}
+		}
+		if ts == nil {
+			continue
 		}
 		if same {
 			n.ghost[k] = ts[0]
 		} else {
 			n.ghost[k] = e.define("ghost", e.ghostSort(k), iteChain(conds, ts))
 		}
+	}
+	// snapshots: a state without one uses the function-entry state
+	snapKeys := map[string]bool{}
+	for _, s := range states {
+		for k := range s.snaps {
+			snapKeys[k] = true
+		}
+	}
+	for k := range snapKeys {
+		var ss []*State
+		for _, s := range states {
+			if sn, ok := s.snaps[k]; ok {
+				ss = append(ss, sn)
+			} else {
+				ss = append(ss, e.entryState)
+			}
+		}
+		if n.snaps == nil {
+			n.snaps = map[string]*State{}
+		}
+		n.snaps[k] = e.merge(conds, ss)
 	}
 	return n
 }
@@ -389,6 +435,12 @@ func (e *enc) havoc(st *State, sp *havocSpec) *State {
 	n := &State{base: b, fam: map[string]Term{}, ghost: map[string]Term{}}
 	for k, v := range st.ghost {
 		n.ghost[k] = v
+	}
+	if len(st.snaps) > 0 {
+		n.snaps = make(map[string]*State, len(st.snaps))
+		for k, v := range st.snaps {
+			n.snaps[k] = v
+		}
 	}
 	n.alloc = e.declare("alloc", "Int")
 	e.assume(fmt.Sprintf("(>= %s %s)", n.alloc, st.alloc))
@@ -518,4 +570,37 @@ func implies(a, b Term) Term {
 		return "true"
 	}
 	return "(=> " + a + " " + b + ")"
+}
+
+// closure emits, once per (array version, allocation counter), the heap
+// well-formedness axiom "every reference stored in an allocated object of
+// this family was allocated": needed when contract expressions (rather than
+// SSA loads, which get the fact individually) read references from the heap.
+func (e *enc) closure(st *State, fam string, elemT types.Type, keySort string) {
+	arr := e.get(st, fam)
+	key := arr + "|" + st.alloc
+	if e.closed == nil {
+		e.closed = map[string]bool{}
+	}
+	if e.closed[key] {
+		return
+	}
+	e.closed[key] = true
+	if strings.Contains(e.defText[arr], "ite") || true {
+		// patterns may not contain ite: use a constant equal to the array
+		arr = e.pin("closed:"+fam, e.famSort[fam], arr)
+	}
+	var sel, binder string
+	if keySort == "" {
+		sel = fmt.Sprintf("(select %s r)", arr)
+		binder = "((r Int))"
+	} else {
+		sel = fmt.Sprintf("(select (select %s r) i)", arr)
+		binder = fmt.Sprintf("((r Int) (i %s))", keySort)
+	}
+	cs := e.wf(sel, elemT, st.alloc)
+	if len(cs) == 0 {
+		return
+	}
+	e.assume(fmt.Sprintf("(forall %s (! (=> (and (< 0 r) (< r %s)) %s) :pattern (%s)))", binder, st.alloc, and(cs...), sel))
 }
